@@ -736,7 +736,7 @@ func (s *state) propertyDsts() []string {
 }
 
 // localV4Flapped: the history contains a state in which the LOCAL node exists without an IPv4
-// address/CIDR (v6-only) — the precondition of the known stale-SameSubnet finding.
+// address/CIDR (v6-only) — the precondition of the stale-SameSubnet defect repaired by repo commit 7bc5b47 (kept as a separate signature so that a regression is named).
 func (s *state) localV4Flapped(ops []string) bool {
 	for _, op := range ops {
 		w := strings.Fields(op)
@@ -805,9 +805,6 @@ func oracleKinds(h *rt.H, s *state, ops []string) {
 		owner, ok := t.nodes[b.aff]
 		if !ok || owner.addr == 0 || !meKnown || me.addr == 0 || !t.parent {
 			continue
-		}
-		if s.localV4Flapped(ops) {
-			continue // known finding, reported through the order oracle
 		}
 		cross := p.ipipMode == 2 || p.vxlanMode == 2
 		same := maskOf(owner.addr, int(me.plen)) == maskOf(me.addr, int(me.plen))
